@@ -61,6 +61,7 @@ class PropertyRun:
         self.t0 = time.time()
         self.reg = load_registry()
         self.repo = Repo()
+        Repo.spec_modules = self.reg.spec_modules
         self.known = [k for k in load_known() if k["property"] == pid and not k.get("fixed")]
         self.fixed = [k for k in load_known() if k["property"] == pid and k.get("fixed")]
         self.functions = []
@@ -209,10 +210,23 @@ class PropertyRun:
             o.result, o.backend, o.time, o.raw = r["verdict"], r["backend"], o.time + r["time"], r["raw"]
             o.tried = o.tried + r["tried"]
 
+        def last_resort(o):
+            # a third round, few at a time (so that a loaded machine cannot flip the verdict), other random seeds, 6x budget
+            for seed in (7, 23):
+                if o.result in ("unsat", "sat"):
+                    return
+                r = smt.solve(o.smt2, self.timeout * 6, seed=seed)
+                o.result, o.backend, o.time, o.raw = r["verdict"], r["backend"], o.time + r["time"], r["raw"]
+                o.tried = o.tried + [("seed%d:%s" % (seed, b), v, t) for b, v, t in r["tried"]]
+
         if pend:
             with ThreadPoolExecutor(max_workers=max(2, self.jobs // 2)) as ex:
                 list(ex.map(relaxed, pend))
                 list(ex.map(retry, pend))
+            still = [o for o in pend if o.result not in ("unsat", "sat")]
+            if still:
+                with ThreadPoolExecutor(max_workers=3) as ex:
+                    list(ex.map(last_resort, still))
         for name, os_ in self.groups().items():
             if all(o.result == "unsat" for o in os_):
                 continue
@@ -308,7 +322,7 @@ class PropertyRun:
         mod_path = os.path.join(ROOT, "checks", self.pid.lower() + ".py")
         if not os.path.exists(mod_path):
             return
-        env = dict(os.environ, PYTHONPATH="/repo:" + ROOT, VERIF_TIER=self.tier, VERIF_SEED=str(self.seed), PYVC_REPO=self.repo.root)
+        env = dict(os.environ, PYTHONPATH=self.repo.root + ":" + ROOT, VERIF_TIER=self.tier, VERIF_SEED=str(self.seed), PYVC_REPO=self.repo.root)
         p = subprocess.run([VENV_PY, mod_path], capture_output=True, text=True, env=env, cwd=ROOT, timeout=3600)
         try:
             res = json.loads(p.stdout.strip().split("\n")[-1])
@@ -349,6 +363,9 @@ class PropertyRun:
                                 backend=o.backend, verdict=o.result, smt2_head=o.smt2[:300] if hasattr(o, "smt2") else ""))
         for r in (static_all + bounded)[:2]:
             samples.append(dict(check=r["name"], kind=r["kind"], status=r["status"], detail=str(r.get("detail", ""))[:300]))
+        for r in bounded:
+            for c in (r.get("samples") or [])[:3]:
+                samples.append(dict(check=r["name"], case=c))
         self.assumptions.update(GLOBAL_ASSUMPTIONS)
         cov = dict(
             obligations=n_inst + len(static_all),
@@ -374,12 +391,14 @@ class PropertyRun:
         )
         if level in ("fault_enumeration", "exploration"):
             ev = sum(int(r.get("evaluations") or 0) for r in bounded)
-            cov.update(evaluations=max(ev, 1), distinct_nontrivial=max(sum(int(r.get("distinct") or 0) for r in bounded), 2),
+            cov.update(evaluations=ev, distinct_nontrivial=sum(int(r.get("distinct") or 0) for r in bounded),
                        rule="; ".join(str(r.get("bound")) for r in bounded), exhaustive=all(r.get("exhaustive") for r in bounded) if bounded else False)
         out = dict(property_id=self.pid, tier=self.tier, seed=self.seed, level=level, coverage=cov,
                    assumptions=sorted(self.assumptions), wall_s=round(time.time() - self.t0, 2), violations=len(self.violations))
-        os.makedirs(os.path.join(ROOT, "evidence"), exist_ok=True)
-        with open(os.path.join(ROOT, "evidence", self.pid + ".json"), "w") as f:
+        # committed evidence describes /repo itself; runs against a scratch copy (PYVC_REPO) leave it alone
+        edir = os.path.join(ROOT, "evidence") if os.path.realpath(self.repo.root) == "/repo" else os.path.join(ROOT, "scratch", "evidence_other_tree")
+        os.makedirs(edir, exist_ok=True)
+        with open(os.path.join(edir, self.pid + ".json"), "w") as f:
             json.dump(out, f, indent=1, default=str)
         return out
 
